@@ -65,7 +65,7 @@ def gen_history(ch: Choices, known: dict):
     models = []
     for i in range(nm):
         with ch.scope(f"m{i}"):
-            m = gen.gen_model(ch, opts)
+            m = gen.magnify(ch, gen.gen_model(ch, opts))  # magnitude of parameters and of domains: where the two modes' integer widths differ
             models.append({k: m[k] for k in ("shr", "idx", "off", "props")})
     nops = 3 + ch.choose(8, "nops")
     ops = []
@@ -85,15 +85,18 @@ def gen_history(ch: Choices, known: dict):
             m = ch.choose(nm, "model")
             cfg = gen.gen_config(ch, models[m]) if ch.chance(1, 2, "cfg.random") else dict(gen.DEFAULT_CONFIG)
             reuse = m in used_models and ch.chance(2, 3, "reuse_problem")
+            # cost tables handed over in the caller's own int64 array, refilled once the solver is built: history,
+            # removed in the clean room (where the same values arrive as plain lists)
+            cbuf = (cfg["var_params"] != [[]] or cfg["dom_params"] != [[]]) and ch.chance(1, 2, "caller_buffer")
             if kind == "find_all":
-                o = {"kind": kind, "model": m, "cfg": cfg, "reuse_problem": reuse}
+                o = {"kind": kind, "model": m, "cfg": cfg, "reuse_problem": reuse, "caller_buffer": cbuf}
                 if ch.chance(2, 5, "small_stack"):
                     o["height"] = 2 + ch.choose(3, "height")  # a capacity error must be the same error in both modes
                 ops.append(o)
                 used_models.add(m)
             elif kind == "new_solver":
                 name = f"s{k}"
-                ops.append({"kind": kind, "model": m, "cfg": cfg, "name": name, "reuse_problem": reuse})
+                ops.append({"kind": kind, "model": m, "cfg": cfg, "name": name, "reuse_problem": reuse, "caller_buffer": cbuf})
                 live.append(name)
                 used_models.add(m)
             elif kind == "take":
@@ -101,11 +104,11 @@ def gen_history(ch: Choices, known: dict):
             elif kind == "abandon":
                 ops.append({"kind": kind, "name": live.pop(ch.choose(len(live), "which"))})
             elif kind == "optimize":
-                ops.append({"kind": kind, "model": m, "cfg": cfg, "reuse_problem": reuse, "dir": ["min", "max"][ch.choose(2, "dir")],
+                ops.append({"kind": kind, "model": m, "cfg": cfg, "reuse_problem": reuse, "caller_buffer": cbuf, "dir": ["min", "max"][ch.choose(2, "dir")],
                             "var": ch.choose(len(models[m]["idx"]), "var")})
                 used_models.add(m)
             elif kind == "split_solve":
-                ops.append({"kind": kind, "model": m, "cfg": cfg, "reuse_problem": reuse, "k": 1 + ch.choose(4, "k"),
+                ops.append({"kind": kind, "model": m, "cfg": cfg, "reuse_problem": reuse, "caller_buffer": cbuf, "k": 1 + ch.choose(4, "k"),
                             "var": ch.choose(len(models[m]["idx"]), "var")})
                 used_models.add(m)
             elif kind == "register":
@@ -139,7 +142,7 @@ def gen_wide(ch: Choices, known: dict):
     models, ops = [], []
     for i in range(nm):
         with ch.scope(f"m{i}"):
-            m = gen.gen_model(ch, opts)
+            m = gen.magnify(ch, gen.gen_model(ch, opts))  # magnitude of parameters and of domains: where the two modes' integer widths differ
             models.append({k: m[k] for k in ("shr", "idx", "off", "props")})
             for j in range(1 + ch.choose(3, "ncalls")):
                 with ch.scope(f"c{j}"):
@@ -198,7 +201,7 @@ def clean_room_chain(ops: List[dict], i: int) -> List[dict]:
     op = ops[i]
     if op["kind"] == "take":
         chain = [o for o in ops[: i + 1] if o.get("name") == op["name"] and o["kind"] in ("new_solver", "take")]
-        return [dict(o, reuse_problem=False) for o in chain]
+        return [dict(o, reuse_problem=False, caller_buffer=False) for o in chain]
     if op["kind"] == "use_custom":
         # only the registrations this operation actually uses: the propagator and the LATEST heuristic / algorithm of
         # each kind (earlier registrations are history, and must not matter)
@@ -208,7 +211,7 @@ def clean_room_chain(ops: List[dict], i: int) -> List[dict]:
                 last[o["what"]] = o
         used = [o for w, o in last.items() if w == "propagator" or op.get("with_heuristics", True)]
         return used + [op]
-    return [dict(op, reuse_problem=False)]
+    return [dict(op, reuse_problem=False, caller_buffer=False)]
 
 
 def run(ch: Choices, focus: str = "C15", params: Optional[dict] = None) -> dict:
